@@ -19,7 +19,7 @@
  *
  * One operation per line (see coq/theories/C11/Model.v `op`):
  *   CALL k s r fa | TCALL k s fa | UCALL s r | PLT i s r arg | TPLT i s | RET s | THROW | UNWIND
- *   RESUME s r | CATCH fa | POKE s v | VCHILD | VPARENT (after PLT <vfork> ...) | DUMP;  scripts are separated by a line NEXT and each runs in
+ *   RESUME s r | CATCH fa | POKE s v | VCHILD | VWAKE | VPARENT (after PLT <vfork> ...) | NOREC | DUMP;  scripts are separated by a line NEXT and each runs in
  *   a forked child (fresh thread data and jmpbuf list); the parent prints ENDCASE <wait status>
  * After each operation one line
  *   D <idx> <record_idx> <in_exception> <target> <pops> | loc ip plt flags *loc ; ...   (bottom first)
@@ -353,6 +353,24 @@ static void run_script(char **lines, int nlines)
 			}
 			else if (follow((unsigned long)plthook_return, &target, &pops) < 0)
 				return;
+		}
+		else if (!strcmp(op, "NOREC")) {
+			/* stand-in for a filter that rejects the library call just pushed (-N foo, -D n, -F f):
+			 * mcount_entry_filter_record() leaves the entry MCOUNT_FL_NORECORD and does not count it
+			 * in record_idx.  (Not used on the vfork entry itself: the filter marks that one before
+			 * prepare_vfork() saves it; vfork rejected by a filter is covered end to end, -N vfork.) */
+			struct mcount_thread_data *mtdp = get_thread_data();
+			if (!check_thread_data(mtdp) && mtdp->idx > 0) {
+				struct mcount_ret_stack *r = &mtdp->rstack[mtdp->idx - 1];
+				r->flags |= MCOUNT_FL_NORECORD;
+				if (mtdp->record_idx > 0)
+					mtdp->record_idx--;
+			}
+		}
+		else if (!strcmp(op, "VWAKE")) {
+			/* the child is gone and the parent thread runs again, but not yet vfork's exit hook:
+			 * a signal handler (SIGCHLD) comes first */
+			fake_pid = 0;
 		}
 		else if (!strcmp(op, "RET")) {
 			if (follow(*SLOT(a), &target, &pops) < 0)
